@@ -203,6 +203,8 @@ def c03_units(tier):
     if tier == "thorough":
         extra = [Unit("crash-then-append-2", HSFS, "zzC03_CrashThenAppend_2", dict(FSFLAGS, only="C03/", loop=56), bounds="as crash-then-append with an initial log of <=2 arbitrary lines")]
     return extra + [
+        Unit("crash-during-compact", HSFS, "zzC03_CrashDuringCompact", dict(FSFLAGS, only="C03/"), bounds="clean log of <=1 arbitrary event; compact killed between any two system calls; then a reader, a surviving writer, a reader"),
+        Unit("crash-during-plan", HSFS, "zzC03_CrashDuringPlan", dict(FSFLAGS, only="C03/"), bounds="clean log of <=1 arbitrary event; plan (1 task) killed between any two system calls; then a reader, a surviving writer, a reader"),
         Unit("compact-stale-tmp", HSFS, "zzC03_CompactStaleTmp", dict(FSFLAGS, only="C03/"), bounds="clean log of <=1 event; a stale <log>.tmp with arbitrary (longer) content may exist; compact"),
         Unit("crash-then-append", HSFS, "zzC03_CrashThenAppend", dict(FSFLAGS, only="C03/"), bounds="initial log: one arbitrary line satisfying the world invariant (blank / event / torn tail); process A = new task killed at any effect index, write torn or not; then a reader, a surviving writer, a reader; the world invariant is re-established, so crash/write rounds of any number are covered by induction"),
     ]
@@ -350,7 +352,7 @@ def c18_units(tier):
     f = dict(FSFLAGS, only="C18/", _wall=300 if tier == "quick" else 3000)
     cfgs = {"Neither": "neither log file", "Plans": "plans.jsonl only", "Legacy": "legacy events.jsonl only", "Both": "both files"}
     us = []
-    for n in ("NewTask", "Claim", "Compact", "Prune", "Plan"):
+    for n in ("NewTask", "Claim", "Compact", "Prune", "Plan", "SetTitle", "SetResult"):
         for c, txt in cfgs.items():
             us.append(Unit("same-log-%s-%s" % (n.lower(), c.lower()), HS18, "zzC18_SameLog%s_%s" % (n, c), f,
                            bounds="store holding %s (each present file: <=1 arbitrary event), lock file present or absent, stale temp file or not; %s through the real lock/read/write path" % (txt, n)))
